@@ -1,19 +1,25 @@
 #!/bin/bash
 # Re-runs every recorded seeded change against the check that is supposed to catch it
 # (the command recorded in its meta.json) and reports the ones that are no longer caught.
-# Applies each patch to /repo and reverts it straight afterwards; do not run while anything
-# else reads /repo.
-cd /verif
+# Applies each patch to the repository and reverts it straight afterwards; do not run on /repo
+# while anything else reads /repo. To run beside other checks, work on scratch copies:
+#   git -C /repo worktree add --detach /tmp/repo_seed HEAD
+#   rsync -a --exclude .git --exclude out /verif/ /tmp/verif_seed/
+#   VERIF_REPO=/tmp/repo_seed /tmp/verif_seed/tools/regress_seeds.sh [name prefix ...]
+#   git -C /repo worktree remove --force /tmp/repo_seed; rm -rf /tmp/verif_seed
+cd "$(dirname "$0")/.." || exit 3
+repo=${VERIF_REPO:-/repo}
 bad=0
 for d in seeded/*/; do
   n=$(basename $d)
   [ -f $d/meta.json ] || continue
+  if [ $# -gt 0 ]; then sel=0; for p in "$@"; do case $n in $p*) sel=1;; esac; done; [ $sel = 1 ] || continue; fi
   if python3 -c "import json,sys;sys.exit(0 if json.load(open('$d/meta.json')).get('superseded') else 1)"; then echo "$n: superseded (see meta.json)"; continue; fi
   cmd=$(python3 -c "import json;print(json.load(open('$d/meta.json'))['how_to_rerun'])")
   out=$($cmd 2>&1)
   rc=$(echo "$out" | grep -o "exit [0-9]*" | tail -1)
   echo "$n: $rc"
   if [ "$rc" != "exit 1" ]; then bad=$((bad+1)); echo "$out" | tail -5; fi
-  git -C /repo status --short | grep -v date.txt
+  git -C "$repo" status --short | grep -v date.txt
 done
 echo "seeds not caught: $bad"
